@@ -299,7 +299,8 @@ Inductive case :=
 | CParent (l out : label)
 | CSandbox (whitelist : list label) (dirs : list str) (t : sbx_target) (ok : bool)
 | CCanSee (dirs : list str) (l dep : label) (vis : list label) (out : bool)
-| CExpand (excl : list label) (pat : label) (graph : list (str * list str)) (out : list label).
+| CExpand (excl : list label) (pat : label) (graph : list (str * list str)) (out : list label)
+| CBatch (cs : list case).                       (* several small cases in one (one Coq case costs ~5 ms of overhead) *)
 
 Definition parsed_eqb (p : parsed) (o : option label) : bool :=
   match p, o with
@@ -312,7 +313,7 @@ Definition subset_eqb (a b : list label) : bool :=
   forallb (fun x => existsb (label_eqb x) b) a && forallb (fun x => existsb (label_eqb x) a) b
   && Nat.eqb (length a) (length b).
 
-Definition check (c : case) : bool :=
+Fixpoint check (c : case) : bool :=
   match c with
   | CEnum al d pre cur acc => list_eqb pair_eqb (accepted cur (enum al d pre)) acc
   | CEnumDigest al d pre cur n dig =>
@@ -327,4 +328,5 @@ Definition check (c : case) : bool :=
   | CSandbox w d t ok => Bool.eqb (validate_sandbox w d t) ok
   | CCanSee d l dep vis out => Bool.eqb (can_see d l dep vis) out
   | CExpand excl pat g out => subset_eqb (expand excl pat g) out      (* the implementation sorts; compared as sets of equal size *)
+  | CBatch cs => forallb check cs
   end.
